@@ -148,11 +148,34 @@ class Core:
         name = base if k == 0 else "%s#%d" % (base, k)
         self.obls.append(Obl(name, kind, line, list(st.pc), goal.t, self.target.ref, info))
 
+    _quant_cache = {}
+
+    @classmethod
+    def has_quant(cls, t):
+        k = t.get_id()
+        r = cls._quant_cache.get(k)
+        if r is None:
+            r = False
+            stack, seen = [t], set()
+            while stack:
+                x = stack.pop()
+                if x.get_id() in seen:
+                    continue
+                seen.add(x.get_id())
+                if z3.is_quantifier(x):
+                    r = True
+                    break
+                stack.extend(x.children())
+            cls._quant_cache[k] = r
+        return r
+
     def feasible(self, st, extra=None):
+        """Path pruning only: quantified facts are left out (fewer prunes, never an unsound one)."""
         s = z3.Solver()
-        s.set("timeout", 2000)
+        s.set("timeout", 1500)
         for p in st.pc:
-            s.add(p)
+            if not self.has_quant(p):
+                s.add(p)
         if extra is not None:
             s.add(extra)
         r = s.check()
